@@ -91,3 +91,48 @@ def tmp_seed_oracle(seed=42, **_):
     finally:
         np.random.set_state(saved)
     return ('return', None), failed
+
+
+def cleanup_oracle(rows=None, MSA=None, MSA_HIT_BUFFER=1500, MAX_HITS_OKTA0=3, **_):
+    """build the frame described by the counter-model (index labels included), construct a real chunk and compare its data
+    row by row with what the property prescribes for the cropping above MSA + MSA_HIT_BUFFER"""
+    import numpy as np
+    import pandas as pd
+    from ampycloud.data import CeiloChunk
+    rows = rows or []
+    if not rows:
+        return ('precondition-false',), []
+    df = pd.DataFrame({'ceilo': [str(r.get('ceilo', 'A')) for r in rows], 'dt': [float(r['dt']) for r in rows],
+                       'height': [float(r['height']) for r in rows], 'type': [int(r['type']) for r in rows]},
+                      index=[r.get('label', i) for i, r in enumerate(rows)])
+    df['ceilo'] = df['ceilo'].astype(pd.StringDtype())
+    prms = {'MSA': None if MSA is None else float(MSA), 'MSA_HIT_BUFFER': float(MSA_HIT_BUFFER), 'MAX_HITS_OKTA0': int(MAX_HITS_OKTA0)}
+    try:
+        with warnings.catch_warnings():
+            warnings.simplefilter('ignore')
+            chunk = CeiloChunk(df, prms=prms)
+    except Exception as e:
+        if type(e).__name__ == 'AmpycloudError':
+            return ('precondition-false',), []
+        return ('raise', type(e).__name__, str(e)[:200]), [f'exc.unexpected.{type(e).__name__}']
+    out = chunk.data
+    failed = []
+    exp = []
+    n_above = 0
+    for r in rows:
+        h, t = float(r['height']), int(r['type'])
+        above = MSA is not None and not math.isnan(h) and h > float(MSA) + float(MSA_HIT_BUFFER)
+        n_above += above
+        if not above:
+            exp.append((float(r['dt']), t, h))
+        elif t <= 1:
+            exp.append((float(r['dt']), 0, float('nan')))
+    got = [(float(a), int(b), float(c)) for a, b, c in zip(out['dt'], out['type'], out['height'])]
+    same = len(got) == len(exp) and all(g[0] == e[0] and g[1] == e[1] and (g[2] == e[2] or (math.isnan(g[2]) and math.isnan(e[2])))
+                                        for g, e in zip(got, exp))
+    if not same:
+        failed.append('post.rows')
+    want_flag = MSA is not None and n_above > int(MAX_HITS_OKTA0)
+    if bool(chunk.clouds_above_msa_buffer) != want_flag:
+        failed.append('post.flag')
+    return ('return', {'rows_out': got[:8], 'flag': bool(chunk.clouds_above_msa_buffer)}), failed
